@@ -181,6 +181,12 @@ def main():
     counts, miss = gen_conn_exits.generate(REPO)
     vals.update(counts)      # CONN_EXIT_SITES, WS_EXIT_SITES, QUIC_EXIT_SITES
     missing += list(miss)
+    # C07: the statements of the connection event loops, accept futures and ProtocolSet reports, the WebRTC
+    # exit sites, the application's event mapping -> coq/gen/ConnSkel.v, harness/src/gen_c07_msgs.rs
+    import gen_c07_skel
+    counts, miss = gen_c07_skel.generate(REPO)
+    vals.update(counts)      # C07_SKEL_STATEMENTS, WEBRTC_EXIT_SITES
+    missing += list(miss)
     # C18: every place that makes a PeerId from key material -> coq/gen/PeerIdSites.v (sibling script)
     import gen_c18_sites
     counts, miss = gen_c18_sites.generate(REPO)
